@@ -171,7 +171,7 @@ def run(ctx):
         B = programs.Basis(T, ctx.rng("basis%d" % (ctx.shard % 4)))
         nul = lambda *a: None  # noqa
         for i in range(n_rounds):
-            qkind = ("simple", "derived", "empty")[i % 3]
+            qkind = ("simple", "derived", "empty", "simple", "derived", "unknown with a caption", "unknown")[i % 7]
             n = r.choice([0, 1, 2, 3, 4]) if i % 4 == 0 else r.choice([2, 3])
             raw = [r.choice([1.0, 2.0, 0.5, 0.1, 0.3, 7.0, -3.0, 10.0, 0.7, 2.5]) for _ in range(max(n, 1))]
             spec = B.leaf(r, max(n, 1)) if qkind != "derived" else B.tree(r, 2, max(n, 1))
@@ -183,7 +183,17 @@ def run(ctx):
                     if cls == "fixedarray" and n < 2:
                         continue
                     try:
-                        if qkind == "empty":
+                        if qkind.startswith("unknown"):
+                            from barril.units import GetUnknownQuantity
+
+                            uq = GetUnknownQuantity("furlong") if "caption" in qkind else GetUnknownQuantity()
+                            if cls == "scalar":
+                                x = Scalar(uq, raw[0])
+                            elif cls == "array":
+                                x = Array(uq, programs.make_container(raw[:n], cont))
+                            else:
+                                x = FixedArray(n, uq, programs.make_container(raw[:n], cont))
+                        elif qkind == "empty":
                             if cls == "scalar":
                                 x = Scalar.CreateEmptyScalar(raw[0])
                             elif cls == "array":
@@ -211,6 +221,12 @@ def run(ctx):
                         for kname, k in (("ndarray[f8]", kf), ("ndarray[i8]", ki)):
                             ctx.nt((cls, cont, len(xvals), qkind, kname))
                             check(ctx, x, xvals, kname, k, case, True, elementwise_k=list(k))
+                        # numpy's own idea of a number: a 0-d array and a one-element array apply to every value
+                        k1 = r.choice([2.0, 0.5, 3.0])
+                        for kname, k in (("ndarray[f8] 0-d", np.array(k1)), ("ndarray[f8] of one element", np.array([k1])), ("ndarray[i8] of one element", np.array([int(k1) or 2], dtype=np.int64))):
+                            if len(xvals) >= 1:
+                                ctx.nt((cls, cont, len(xvals), qkind, kname))
+                                check(ctx, x, xvals, kname, k, case, True, elementwise_k=[k.reshape(-1)[0]] * len(xvals))
             if i < 2 and ctx.shard == 0:
                 ctx.sample({"x": programs.render(spec), "quantity_kind": qkind, "length": n})
         exponent_families(ctx, ctx.rng("families"), 12 if ctx.tier == "quick" else 150)
